@@ -21,6 +21,7 @@ extern "C" {
     fn fstat(fd: i32, st: *mut [u64; 18]) -> i32;
     fn stat(path: *const u8, st: *mut [u64; 18]) -> i32;
     fn setsid() -> i32;
+    fn fcntl(fd: i32, cmd: i32, ...) -> i32;
 }
 
 static mut LOG_FD: i32 = -1;
@@ -159,6 +160,8 @@ fn run_actions(actions: &[String]) -> ! {
                 write_all(fd, &data, chunk, pace);
                 log_line(&format!("wrote {} {} tag={}", f[1], len, tag));
             }
+            // pipesz:<bytes>: enlarge the stdout pipe (F_SETPIPE_SZ) so that a large last write does not block
+            "pipesz" => { let n: i32 = f[1].parse().unwrap_or(65536); let rc = unsafe { fcntl(1, 1031, n) }; log_line(&format!("pipesz {} rc={}", n, rc)); }
             "sleep" => { let ms: u64 = f[1].parse().unwrap_or(0); let end = now_ns() + ms as u128 * 1_000_000; while now_ns() < end { unsafe { usleep(((end - now_ns()).min(50_000_000) / 1000) as u32) }; } }
             // work:<ms>: like sleep, but counts *running* time: a gap (the process was stopped) is logged and not counted
             "work" => {
